@@ -74,6 +74,12 @@ def evaluate(case):
         if abs(v[k] - ref) > 1e-9 * sc:
             fails.append(f"fourier_transform: value at x'={t!r} is {v[k]!r}, trapezoid sine quadrature gives {ref!r}")
             break
+    v_held, v_snap = v, v.copy()
+    _, v_other, _ = tr.fourier_transform(x, z, xo)      # the same object transforms other data onto the same output grid ...
+    if not np.array_equal(v_held, v_snap, equal_nan=True):
+        fails.append("fourier_transform: the array returned by an earlier call changed when the same object transformed other data "
+                     "(the result is a buffer of the object, not the caller's)")
+        return fails
     if dy is not None:
         _, vn, _ = tr.fourier_transform(x, y, xo)
         if not np.array_equal(np.asarray(vn), v):
